@@ -134,13 +134,14 @@ type Contracts struct {
 	Axioms  map[string][]*Clause // per package
 	Lemmas  map[string][]*Clause
 	GlobalInv map[string][]*Clause // pkgpath.name -> invariants
+	StableKeys [][2]string // (pkg, descriptor): heap locations never written after construction (kept across arbitrary calls)
 	Ifaces  map[string]*FuncContract // key: pkg.I.Method
 	Externs map[string]*FuncContract // key: ssa function String(), e.g. (*net/http.Request).Cookie
 	Files   []string
 	Nclause int
 }
 
-var keywordRe = regexp.MustCompile(`^(spec|pred|axiom|lemma|globalinv|type|func|iface|functype|extern|props|atomic|holds|at_call|requires|ensures|ensures_panic|ghost_ensures|modifies|loop|assume|nopanic|maypanic|trusted|pure|readsclock|noaxioms|onlyaxioms|wiring|params|immutable|stable|guards|guarded_by|ghost|lockinv|extsync|mutators|setup|strings|noinline)\b`)
+var keywordRe = regexp.MustCompile(`^(spec|pred|axiom|lemma|globalinv|stablekeys|type|func|iface|functype|extern|props|atomic|holds|at_call|requires|ensures|ensures_panic|ghost_ensures|modifies|loop|assume|nopanic|maypanic|trusted|pure|readsclock|noaxioms|onlyaxioms|wiring|params|immutable|stable|guards|guarded_by|ghost|lockinv|extsync|mutators|setup|strings|noinline)\b`)
 
 var labelRe = regexp.MustCompile(`^([A-Za-z_][A-Za-z_0-9]*):([^:]|$)`)
 var propsRe = regexp.MustCompile(`^\{([A-Z0-9, ]+)\}\s*`)
@@ -244,6 +245,11 @@ func (cs *Contracts) LoadContractFile(path, pkg string) error {
 				return fail(l, "%v", err)
 			}
 			cs.Preds[sf.Name] = &PredDef{Pkg: pkg, Name: sf.Name, Params: sf.Params, Body: e, Src: body}
+			curF, curT = nil, nil
+		case "stablekeys":
+			for _, d := range strings.Fields(strings.ReplaceAll(rest, ",", " ")) {
+				cs.StableKeys = append(cs.StableKeys, [2]string{pkg, d})
+			}
 			curF, curT = nil, nil
 		case "globalinv":
 			c, err := mkClause(kw, rest, l)
